@@ -933,4 +933,3 @@ Lemma sitems_ok_meaning : forall s : snarsese,
      end
   && match sn_truth s with Some (_, n) => forallb (forallb is_float_char) (nl_texts n) | None => true end.
 Proof. reflexivity. Qed.
-(* END *)
